@@ -48,15 +48,22 @@ def oracle(case):
     from .c03 import err_site
     try:
         with contextlib.redirect_stdout(io.StringIO()):
+            import warnings
             import nifty.cl as ift
             ift.logger.setLevel(logging.ERROR)
-            return _oracle(case, ift)
+            with warnings.catch_warnings():
+                warnings.simplefilter("ignore")
+                return _oracle(case, ift)
     except Exception as e:
         return (f"{case['aux']}: raised {type(e).__name__} in {err_site(e)}: {str(e)[:120]}",
                 {"site": "aux:" + case["aux"], "kind": "error:" + type(e).__name__, "where": err_site(e)})
 
 
 def _oracle(case, ift):
+    if case["aux"] == "sea":
+        return _oracle_sea(case, ift)
+    if case["aux"] == "jaxsimp":
+        return _oracle_jax(case, ift)
     kind, n, S, wm = case["aux"], case["n"], case["S"], case["wm"]
     d = ift.DomainTuple.make(ift.UnstructuredDomain(n))
     fa = lambda k: ift.FieldAdapter(d, k)
@@ -104,4 +111,129 @@ def _oracle(case, ift):
                                                                                         kind="value-prior-offset"))
         return (f"{kind}: value of the simplified energy ({v1!r}) differs from the original with the constants inserted "
                 f"({v0!r}); difference {v1 - v0!r}", dict(sig, kind="value"))
+    return None
+
+
+# ---------------------------------------------------------------------------------------------- StochasticEnergyAdapter
+def gen_sea(rng, n):
+    out = []
+    dy = lambda lo, hi: rng.randint(int(lo * 8), int(hi * 8)) / 8
+    for _ in range(n):
+        m = rng.choice([1, 2, 3])
+        out.append(dict(aux="sea", n=m, a=[dy(-1, 1) for _ in range(m)], b=[dy(-1, 1) for _ in range(m)],
+                        d=[dy(-2, 2) for _ in range(m)], f=rng.choice(["exp", "tanh", "sin"]),
+                        nsamp=rng.choice([1, 2, 3]), mirror=rng.random() < 0.5, seed=rng.randint(0, 10 ** 6)))
+    return out
+
+
+def _oracle_sea(case, ift):
+    """StochasticEnergyAdapter.make(position, op, sampling_keys, n_samples, mirror): the noise keys are inserted as constants
+    (simplify_for_constant_input per sample); value and gradient must be the sample averages of op at position ∪ noise_i,
+    the gradient has components for the position keys only."""
+    n = case["n"]
+    d = ift.DomainTuple.make(ift.UnstructuredDomain(n))
+    fa = lambda k: ift.FieldAdapter(d, k)
+    op = ift.GaussianEnergy(data=ift.makeField(d, np.array(case["d"]))) @ (fa("a").ptw(case["f"]) * fa("b") + fa("s"))
+    pos = ift.MultiField.from_dict({"a": ift.makeField(d, np.array(case["a"])), "b": ift.makeField(d, np.array(case["b"]))})
+    ift.random.push_sseq_from_seed(case["seed"])
+    try:
+        sea = ift.StochasticEnergyAdapter.make(pos, op, ["s"], case["nsamp"], case["mirror"])
+    finally:
+        ift.random.pop_sseq()
+    sig = {"site": "aux:sea"}
+    noise = sea.samples()
+    want_n = case["nsamp"] * (2 if case["mirror"] else 1)
+    if len(noise) != want_n:
+        return (f"sea: {len(noise)} noise realisations for n_samples={case['nsamp']}, mirror={case['mirror']}", dict(sig, kind="samples"))
+    vals, grads = [], []
+    for nn in noise:
+        full = pos.unite(nn)
+        lin = op(ift.Linearization.make_var(full))
+        vals.append(float(_arr(lin.val)[0]))
+        g = lin.gradient
+        grads.append(np.concatenate([_arr(g["a"]), _arr(g["b"])]))
+    close = lambda a, b, tol=1e-11: bool(np.all(np.abs(np.asarray(a) - np.asarray(b)) <= tol * max(1.0, float(np.max(np.abs(b), initial=0)))))
+    if not close([float(sea.value)], [np.mean(vals)]):
+        return (f"sea: value {float(sea.value)!r} is not the sample average {np.mean(vals)!r} of the energy with the noise inserted",
+                dict(sig, kind="value"))
+    g = sea.gradient
+    if sorted(g.domain.keys()) != ["a", "b"]:
+        return (f"sea: gradient has keys {sorted(g.domain.keys())}", dict(sig, kind="gradient-keys"))
+    if not close(np.concatenate([_arr(g["a"]), _arr(g["b"])]), np.mean(grads, axis=0)):
+        return ("sea: gradient is not the sample average of the gradients w.r.t. the position keys", dict(sig, kind="gradient"))
+    if case["mirror"]:
+        for i in range(0, len(noise), 2):
+            if not close(_arr(noise[i]["s"]), -_arr(noise[i + 1]["s"]), 1e-15):
+                return ("sea: mirrored samples are not negatives of each other", dict(sig, kind="mirror"))
+    # metric: average of the per-sample metrics
+    v = ift.MultiField.from_dict({"a": ift.makeField(d, np.arange(1., n + 1)), "b": ift.makeField(d, -np.ones(n))})
+    mv = sea.apply_metric(v)
+    ref = None
+    for nn in noise:
+        lin = op(ift.Linearization.make_var(pos.unite(nn), True))
+        w = lin.metric(v.unite(ift.full(nn.domain, 0.)))
+        w = np.concatenate([_arr(w["a"]), _arr(w["b"])])
+        ref = w if ref is None else ref + w
+    if not close(np.concatenate([_arr(mv["a"]), _arr(mv["b"])]), ref / len(noise)):
+        return ("sea: apply_metric is not the sample average of the position block of the metrics", dict(sig, kind="metric"))
+    return None
+
+
+# ---------------------------------------------------------------------------------------------- JAX operators
+def gen_jax(rng, n):
+    out = []
+    dy = lambda lo, hi: rng.randint(int(lo * 8), int(hi * 8)) / 8
+    for _ in range(n):
+        m = rng.choice([1, 2, 3])
+        out.append(dict(aux="jaxsimp", n=m, a=[dy(-1, 1) for _ in range(m)], b=[dy(-1, 1) for _ in range(m)],
+                        d=[dy(-2, 2) for _ in range(m)], S=rng.choice([["a"], ["b"]]), wm=rng.random() < 0.6,
+                        kind=rng.choice(["operator", "likelihood"])))
+    return out
+
+
+def _oracle_jax(case, ift):
+    """JaxOperator / JaxLikelihoodEnergyOperator: own simplification rules (closure over the constants)"""
+    import jax
+    jax.config.update("jax_enable_x64", True)
+    import jax.numpy as jnp
+    import warnings
+    n, S, wm = case["n"], case["S"], case["wm"]
+    d = ift.DomainTuple.make(ift.UnstructuredDomain(n))
+    md = ift.MultiDomain.make({"a": d, "b": d})
+    x = ift.MultiField.from_dict({"a": ift.makeField(d, np.array(case["a"])), "b": ift.makeField(d, np.array(case["b"]))})
+    data = np.array(case["d"])
+    sig = {"site": "aux:jaxsimp", "jaxkind": case["kind"]}
+    var = [k for k in ("a", "b") if k not in S]
+    if case["kind"] == "operator":
+        op = ift.JaxOperator(md, d, lambda t: jnp.exp(t["a"]) * t["b"] + jnp.sin(t["a"]))
+        wm = False
+    else:
+        func = lambda t: 0.5 * jnp.sum((jnp.exp(t["a"]) * t["b"] - jnp.asarray(data)) ** 2)
+        trafo = ift.Adder(ift.makeField(d, data), neg=True) @ (ift.FieldAdapter(d, "a").ptw("exp") * ift.FieldAdapter(d, "b"))
+        with warnings.catch_warnings():
+            warnings.simplefilter("ignore")
+            op = ift.JaxLikelihoodEnergyOperator(md, func, transformation=trafo, sampling_dtype=np.float64)
+    _, ops = op.simplify_for_constant_input(x.extract_by_keys(S))
+    if sorted(ops.domain.keys()) != var:
+        return (f"jaxsimp: simplified operator reads {sorted(ops.domain.keys())}", dict(sig, kind="domain"))
+    xv = x.extract_by_keys(var)
+    l0 = op(ift.Linearization.make_var(x, wm))
+    l1 = ops(ift.Linearization.make_var(xv, wm))
+    close = lambda a, b, tol=1e-11: bool(np.all(np.abs(np.asarray(a) - np.asarray(b)) <= tol * max(1.0, float(np.max(np.abs(b), initial=0)))))
+    if not close(_arr(l1.val), _arr(l0.val)) or not close(_arr(ops(xv)), _arr(op(x))):
+        return ("jaxsimp: value of the simplified operator differs from the original with the constants inserted", dict(sig, kind="value"))
+    tgt = l0.jac.target
+    m = max(tgt.size, 1)
+    idx = list(range(n)) if var == ["a"] else list(range(n, 2 * n))
+    J0 = _dense(l0.jac, md, tgt, ift)
+    J1 = _dense(l1.jac, l1.domain, tgt, ift)
+    if not close(J1, J0[:, idx]):
+        return ("jaxsimp: Jacobian of the simplified operator differs from the variable columns of the original", dict(sig, kind="jacobian"))
+    if (l0.metric is None) != (l1.metric is None):
+        return ("jaxsimp: metric presence differs", dict(sig, kind="metric-presence"))
+    if l0.metric is not None:
+        M0 = _dense(l0.metric, md, md, ift)
+        M1 = _dense(l1.metric, l1.domain, l1.domain, ift)
+        if not close(M1, M0[np.ix_(idx, idx)]):
+            return ("jaxsimp: metric of the simplified energy is not the variable block", dict(sig, kind="metric"))
     return None
